@@ -178,7 +178,11 @@ def run_history_real(hist, reset, oracle_fresh_last=False):
     GlobalIngestData._jobmap.clear()
     bctx = barrier_mod._main_barrier_context
     bctx.hold = []
-    tmp = tempfile.mkdtemp(prefix="aiuverif_")
+    # hypothesis GoodRun: the job ids (crc32(path) % 10000) of the files of a history are pairwise distinct and
+    # differ from the pseudo job's - pick a scratch directory in which that holds (a collision makes the result
+    # depend on the directory name, which is not what this differential is about)
+    from lib.stage import _scratch_dir_with_distinct_job_ids
+    tmp = _scratch_dir_with_distinct_job_ids(sorted({f["name"] for run in hist for f in run["files"]}))
     known_keys = {}
     outs, model_runs = [], []
     try:
